@@ -86,7 +86,12 @@ def case_task(task):
             vals = [v.value for v in gen.make_data(rng, n, D, G, kind="twins")]
         else:
             vals = gen.make_values(rng, n, D, G, kind)
+        if c.get("f32"):
+            # single-precision likelihood grids (valid through the API; the sums must still be carried in double precision)
+            vals = [np.ascontiguousarray(v, dtype=np.float32) for v in vals]
+            part.count("cases_with_single_precision_data")
         data = [DataPoint(i, v, name="c02_%d_%d" % (c["id"], i)) for i, v in enumerate(vals)]
+        vals = [np.asarray(v, dtype=np.float64) for v in vals]
         case = {"id": c["id"], "mode": c["mode"], "D": D, "G": G, "kind": kind, "forest": f.describe(), "seed": task["seed"]}
         try:
             compute_log_S.cache_clear()
@@ -246,7 +251,7 @@ def run(ctx):
         cases.append({"id": cid, "mode": "interval", "forest": f.describe(), "G": [3, 5, 11, 101][i % 4] if i % 10 else 21,
                       "D": 1 + i % 4, "kind": ["flat", "moderate", "smooth", "peaked", "binom", "emission", "scales", "twins"][i % 8],
                       "shuffle": bool(i % 2), "warm": bool(i % 3 == 0), "incremental": bool(i % 5 in (1, 3)),
-                      "grafted": bool(i % 7 == 2)})
+                      "grafted": bool(i % 7 == 2), "f32": bool(i % 9 == 4)})
         cid += 1
     n_big = 24 if quick else 600
     for i in range(n_big):
@@ -286,6 +291,7 @@ def run(ctx):
     for i in range(0, len(small), 40):
         tasks.append({"seed": ctx.seed, "cases": small[i:i + 40]})
     ctx.map("checks.c02", "case_task", tasks, timeout=3000)
+    ctx.map("checks.c02", "case_task", tasks[::7][:12], timeout=3000, python_flags=("-O",))  # assertions off
     if ctx.counters.get("brute_force_cases", 0) < 50 or ctx.counters.get("interval_cases", 0) < 100:
         ctx.inconc("too few cases evaluated")
     if ctx.counters.get("warm_up_forests_fft_path", 0) < 12:
